@@ -291,9 +291,25 @@ class Layout:
 class Func:
     pass
 
+ALIAS = re.compile(r'^(@(?:"[^"]*"|[-a-zA-Z$._0-9]+)) = .*\balias\b.*?(@(?:"[^"]*"|[-a-zA-Z$._0-9]+))\s*$')
+REFX = re.compile(r'@(?:"[^"]*"|[-a-zA-Z$._0-9]+)')
+
 def parse_module(text):
     mod = Module()
     lines = text.split('\n')
+    # aliases (e.g. complete-object constructor C1 = base-object constructor C2) are resolved textually
+    al = {}
+    for ln in lines:
+        if ln.startswith('@') and ' alias ' in ln:
+            m = ALIAS.match(ln)
+            if m: al[m.group(1)] = m.group(2)
+    if al:
+        def res(m):
+            n = m.group(0)
+            k = 0
+            while n in al and k < 8: n = al[n]; k += 1
+            return n
+        lines = [l if (l.startswith('@') and ' alias ' in l) else REFX.sub(res, l) for l in lines]
     i = 0
     n = len(lines)
     while i < n:
